@@ -100,6 +100,13 @@ def perform(acl: Acl, op: dict):
         if op.get("default"):
             return acl.resequence()
         return acl.resequence(op["start"], op["step"])
+    if k == "resequence_group":
+        if not n:
+            return None
+        item = acl.items[op["i"] % n]
+        if isinstance(item, AceGroup) and item.items:
+            return item.resequence(op["start"], op["step"])
+        return None
     if k == "group":
         acl.group(op["prefix"])
         return None
